@@ -108,6 +108,9 @@ def run(ctx):
                 c.ob("R2", True, w0.func, construct, "macrostep-transient: every non-constructor write is paired with a reset in a finally", w0.node)
             elif not readers:
                 c.ob("R2", True, w0.func, construct, "never read during event processing", w0.node, nontrivial=False)
+            elif _reset_before_use(r, attr, writers, readers):
+                c.ob("R2", True, w0.func, construct, "dead at quiescence: re-initialised (under a test that holds whenever no macrostep is in flight) "
+                     "before every read", w0.node)
             else:
                 half = "persisted but not restored" if attr in persisted_attrs else ("restored but not persisted" if attr in restored_attrs else "neither persisted nor restored")
                 c.ob("R2", False, w0.func, construct,
@@ -168,25 +171,7 @@ def run(ctx):
     c.ob("R4", bool(unknown), fs, "unknown-state-rejected", "a snapshot naming a state the machine lacks raises StateNotFoundError" if unknown else
          "a snapshot naming an unknown state is accepted silently", fs.node)
     # ---- R7 every persisted configuration id is restored (or rejected) ----------------------------
-    g_fs = cfg_of(fs.node)
-    adds = [w for w in attr_writes(fs) if w.attr == CONFIG_ATTR and w.op == "call:add"]
-    loops = [l for l in own_nodes(fs.node) if isinstance(l, ast.For) and any(any(w.node is x for x in ast.walk(l)) for w in adds)]
-    c.need(loops, "restore loop of from_snapshot")
-    lp = loops[0]
-    itname = lp.iter.id if isinstance(lp.iter, ast.Name) else None
-    defs = [a for a in assignments_to(fs, itname) if isinstance(a, (ast.Assign, ast.AnnAssign))] if itname else []
-    direct = bool(itname) and len(defs) == 1 and "snapshot" in norm(defs[0].value) and not any(
-        isinstance(y, (ast.ListComp, ast.GeneratorExp, ast.SetComp)) or (isinstance(y, ast.Call) and norm(y.func) == "filter") for y in ast.walk(defs[0].value))
-    c.ob("R7", direct or (itname is None and "snapshot" in norm(lp.iter)), fs, "restore-iterates-persisted-ids",
-         "the restore loop iterates the persisted configuration as written" if direct else
-         f"the ids handed to the restore loop are re-assigned / filtered after being read from the snapshot ({len(defs)} assignments of "
-         f"'{itname}'): a persisted active state can be dropped on restore (e.g. a childless compound leaf that is not in state_ids), leaving a "
-         f"parallel state with a missing region", lp)
-    hdr = g_fs.nodes_of(lp)[0]
-    addn = [n for w in adds for n in cfg_node_of(fs, w.node)]
-    ok = shared.unconditional_in_loop(g_fs, hdr, addn)
-    c.ob("R7", ok, fs, "restore-adds-every-id", "every iteration of the restore loop adds the state or raises" if ok else
-         "an iteration of the restore loop can complete without adding the persisted state (and without raising)", lp)
+    shared.restore_every_id(ctx, "R7")
     # ---- R5 ancestor closure on restore ----------------------------------------------------
     shared.snapshot_ancestor_closure(ctx, "R5")
 
@@ -199,6 +184,42 @@ def _macrostep_transient(r, attr, writers) -> bool:
         if not resets:
             return False
     return True
+
+
+def _reset_before_use(r, attr, writers, readers) -> bool:
+    """All accesses sit in one function, which re-initialises the attribute to a constant under ``X == 0`` where X is a
+    macrostep-transient counter (0 whenever no macrostep is in flight), and that test precedes every read: the value the
+    attribute holds at a quiescent point is never observed, so it need not be persisted."""
+    funcs = {w.func.qualname: w.func for w in writers}
+    for f in readers:
+        funcs[f.qualname] = f
+    if len(funcs) != 1:
+        return False
+    f = next(iter(funcs.values()))
+    g = cfg_of(f.node)
+    for x in own_nodes(f.node):
+        if not isinstance(x, ast.If):
+            continue
+        cp = compare_parts(x.test)
+        if cp is None or not isinstance(cp[1], ast.Eq) or not (isinstance(cp[2], ast.Constant) and cp[2].value == 0):
+            continue
+        srcs = [cp[0]]
+        if isinstance(cp[0], ast.Name):
+            srcs += [a.value for a in assignments_to(f, cp[0].id) if getattr(a, "value", None) is not None]
+        tattrs = {y.attr for e in srcs for y in ast.walk(e) if isinstance(y, ast.Attribute) and dotted(y.value) == "self"} | \
+                 {y.value for e in srcs for y in ast.walk(e) if isinstance(y, ast.Constant) and isinstance(y.value, str) and y.value.startswith("_")}
+        if not any(_macrostep_transient(r, t, [w for fn in r.funcs if fn.name != "__init__" for w in attr_writes(fn) if w.attr == t and w.base == "self"])
+                   and any(w.attr == t for fn in r.funcs if fn.name != "__init__" for w in attr_writes(fn)) for t in tattrs):
+            continue
+        resets = [y for st in x.body for y in ast.walk(st) if isinstance(y, ast.Assign) and isinstance(y.targets[0], ast.Attribute)
+                  and y.targets[0].attr == attr and dotted(y.targets[0].value) == "self" and isinstance(y.value, ast.Constant)]
+        if not resets:
+            continue
+        tn = g.nodes_of(x.test)
+        reads = [y for y in own_nodes(f.node) if isinstance(y, ast.Attribute) and y.attr == attr and dotted(y.value) == "self" and isinstance(y.ctx, ast.Load)]
+        if all(all(g.always_before(tn, n_, follow_exc=False) for n_ in cfg_node_of(f, y)) for y in reads):
+            return True
+    return False
 
 
 def _fresh(e):
